@@ -336,6 +336,41 @@ func execOp(tx *nutsdb.Tx, o Op) (r Res) {
 	return Res{Err: true, ErrS: "harness: unknown op " + o.K}
 }
 
+// arenaOps copies every byte-slice argument of ops into one contiguous buffer and returns ops whose arguments are
+// sub-slices of it (nil stays nil).
+func arenaOps(ops []Op) ([]Op, []byte) {
+	total := 0
+	for _, o := range ops {
+		total += len(o.Key) + len(o.Key2) + len(o.Val)
+		for _, v := range o.Vals {
+			total += len(v)
+		}
+	}
+	arena := make([]byte, 0, total+8)
+	put := func(b []byte) []byte {
+		if b == nil {
+			return nil
+		}
+		off := len(arena)
+		arena = append(arena, b...)
+		return arena[off:len(arena):cap(arena)] // spare capacity: the arguments that follow
+	}
+	out := make([]Op, len(ops))
+	for i, o := range ops {
+		o.Key, o.Key2, o.Val = put(o.Key), put(o.Key2), put(o.Val)
+		if o.Vals != nil {
+			vs := make([][]byte, len(o.Vals))
+			for j, v := range o.Vals {
+				vs[j] = put(v)
+			}
+			o.Vals = vs
+		}
+		out[i] = o
+	}
+	arena = append(arena, "\xee\xee\xee\xee"...)
+	return out, arena[:cap(arena)]
+}
+
 type fnError struct{}
 
 func (fnError) Error() string { return "harness: fn error" }
@@ -350,9 +385,20 @@ func execTx(db *nutsdb.DB, t TxSpec) (out TxOut) {
 			out.Committed = false
 		}
 	}()
+	// The arguments are handed over the way an application with its own buffers does it: every key, value and
+	// member of the transaction is a sub-slice of ONE buffer (so each has spare capacity, and what follows it in
+	// the buffer is another argument), and the buffer is overwritten as soon as the transaction has ended. A
+	// library that appends to a caller's slice, or keeps a caller's slice beyond the transaction, shows up as a
+	// wrong result.
+	ops, arena := arenaOps(t.Ops)
+	defer func() {
+		for i := range arena {
+			arena[i] = 0xee
+		}
+	}()
 	run := func(tx *nutsdb.Tx) {
-		out.Res = make([]Res, 0, len(t.Ops))
-		for _, o := range t.Ops {
+		out.Res = make([]Res, 0, len(ops))
+		for _, o := range ops {
 			out.Res = append(out.Res, execOp(tx, o))
 		}
 	}
